@@ -9,11 +9,12 @@ REPO = os.environ.get("VERIF_REPO", "/repo")
 
 
 def anchors():
-    from . import t3_decomposer, t8_kwargs, t5_eof, t4_scaler
+    from . import t3_decomposer, t8_kwargs, t5_eof, t4_scaler, t5_rot
     return {"T3": ("T3.v", t3_decomposer.gen), "T3b": ("T3b.v", t3_decomposer.gen_sign_xr),
             "T8": ("T8.v", t8_kwargs.gen),
             "T5eof": ("T5eof.v", t5_eof.gen),
-            "T4": ("T4.v", t4_scaler.gen)}
+            "T4": ("T4.v", t4_scaler.gen),
+            "T5rot": ("T5rot.v", t5_rot.gen)}
 
 
 def regen_all(outdir, repo=None):
